@@ -14,6 +14,8 @@ pub struct Case {
     pub kind: u8,
     pub content: Vec<u8>,
     pub offset: usize,
+    /// when set, the offset is usize::MAX - address(source) - k (chunks straddling the top of the address space)
+    pub addr_rel: Option<usize>,
 }
 
 pub fn case_strategy() -> BoxedStrategy<Case> {
@@ -21,6 +23,7 @@ pub fn case_strategy() -> BoxedStrategy<Case> {
         6 => (0usize..80).prop_map(|o| (0u8, o)),
         3 => (0usize..40).prop_map(|o| (1u8, o)),
         2 => (0usize..40).prop_map(|k| (2u8, k)),
+        2 => (0usize..40).prop_map(|k| (3u8, k)),
     ];
     (0u8..6, vec(any::<u8>(), 0..48), off)
         .prop_map(|(kind, content, (mode, o))| {
@@ -32,7 +35,7 @@ pub fn case_strategy() -> BoxedStrategy<Case> {
                 1 => (len + 33).saturating_sub(o),
                 _ => usize::MAX - o,
             };
-            Case { kind, content, offset }
+            Case { kind, content, offset, addr_rel: if mode == 3 { Some(o) } else { None } }
         })
         .boxed()
 }
@@ -67,40 +70,47 @@ fn reads<S: Source + ?Sized>(s: &S, offset: usize, len: usize) -> Vec<(usize, bo
 pub fn interpret(case: &Case, run: Option<&mut Run>) -> Result<(), String> {
     let bytes = &case.content;
     let len = bytes.len();
+    let off = |p: *const u8| -> usize {
+        match case.addr_rel {
+            Some(k) => (usize::MAX - p as usize).saturating_sub(k).max(len + 1),
+            None => case.offset,
+        }
+    };
+    let mut used = case.offset;
     let got = match case.kind {
         0 => {
             let s: Box<str> = String::from_utf8(bytes.clone()).unwrap().into_boxed_str();
-            reads::<str>(&s, case.offset, len)
+            { used = off(s.as_ptr()); reads::<str>(&s, used, len) }
         }
         1 => {
             let b: Box<[u8]> = bytes.clone().into_boxed_slice();
-            reads::<[u8]>(&b, case.offset, len)
+            { used = off(b.as_ptr()); reads::<[u8]>(&b, used, len) }
         }
         2 => {
             let s: String = String::from_utf8(bytes.clone()).unwrap();
-            reads::<String>(&s, case.offset, len)
+            { used = off(s.as_ptr()); reads::<String>(&s, used, len) }
         }
         3 => {
             let v: Vec<u8> = bytes.clone();
-            reads::<Vec<u8>>(&v, case.offset, len)
+            { used = off(v.as_ptr()); reads::<Vec<u8>>(&v, used, len) }
         }
         4 => {
             let s: Box<str> = String::from_utf8(bytes.clone()).unwrap().into_boxed_str();
-            reads::<Box<str>>(&s, case.offset, len)
+            { used = off(s.as_ptr()); reads::<Box<str>>(&s, used, len) }
         }
         _ => {
             let b: Box<[u8]> = bytes.clone().into_boxed_slice();
             let r: &[u8] = &b;
-            reads::<&[u8]>(&r, case.offset, len)
+            { used = off(r.as_ptr()); reads::<&[u8]>(&r, used, len) }
         }
     };
     for (n, some, g) in &got {
-        let expect = case.offset.checked_add(*n).filter(|&e| e <= len).map(|e| bytes[case.offset..e].to_vec());
+        let expect = used.checked_add(*n).filter(|&e| e <= len).map(|e| bytes[used..e].to_vec());
         if *some != expect.is_some() {
-            return Err(format!("read of a {n}-byte chunk at offset {} on a {len}-byte source (kind {}) returned {}, expected {}", case.offset, case.kind, if *some { "Some" } else { "None" }, if expect.is_some() { "Some" } else { "None" }));
+            return Err(format!("read of a {n}-byte chunk at offset {} on a {len}-byte source (kind {}) returned {}, expected {}", used, case.kind, if *some { "Some" } else { "None" }, if expect.is_some() { "Some" } else { "None" }));
         }
         if *g != expect {
-            return Err(format!("read of a {n}-byte chunk at offset {} on a {len}-byte source (kind {}) returned {:?}, expected {:?}", case.offset, case.kind, g, expect));
+            return Err(format!("read of a {n}-byte chunk at offset {} on a {len}-byte source (kind {}) returned {:?}, expected {:?}", used, case.kind, g, expect));
         }
     }
     if let Some(run) = run {
@@ -115,6 +125,9 @@ pub fn interpret(case: &Case, run: Option<&mut Run>) -> Result<(), String> {
         if case.offset > usize::MAX - 64 {
             run.count("offsets_near_usize_max", 1);
         }
+        if case.addr_rel.is_some() {
+            run.count("offsets_near_usize_max_minus_address", 1);
+        }
         run.sample(|| json!({"kind": case.kind, "len": len, "offset": case.offset}));
     }
     Ok(())
@@ -125,12 +138,12 @@ pub fn main(args: &Args, cfg: &str) -> i32 {
         "C05",
         &args.tier,
         args.seed,
-        "Source::read: proptest over source kind (Box<str>, Box<[u8]>, String, Vec<u8>, Box<str> via Deref, &[u8] via Deref) x content x offset in {0..80, len+33-k, usize::MAX-k} x chunk types u8 and &[u8;N], N in {0,1,2,3,4,7,8,9,16,31,32,33}; oracle: Some(c) iff offset.checked_add(N) <= len, and then c == bytes[offset..offset+N]; exactly sized heap allocations (ASan configuration sees any over-read); evaluation = one read; non-trivial = distinct (source, offset) with the offset within 33 of len or within 64 of usize::MAX",
+        "Source::read: proptest over source kind (Box<str>, Box<[u8]>, String, Vec<u8>, Box<str> via Deref, &[u8] via Deref) x content x offset in {0..80, len+33-k, usize::MAX-k, usize::MAX-address(source)-k} x chunk types u8 and &[u8;N], N in {0,1,2,3,4,7,8,9,16,31,32,33}; oracle: Some(c) iff offset.checked_add(N) <= len, and then c == bytes[offset..offset+N]; exactly sized heap allocations (ASan configuration sees any over-read); evaluation = one read; non-trivial = distinct (source, offset) with the offset within 33 of len or within 64 of usize::MAX",
     );
     run.assumptions = vec![format!("build configuration {cfg}")];
     if let Some(path) = &args.replay {
         let v: serde_json::Value = serde_json::from_str(&std::fs::read_to_string(path).unwrap()).unwrap();
-        let case = Case { kind: v["kind"].as_u64().unwrap() as u8, content: unhex(v["content_hex"].as_str().unwrap()), offset: v["offset"].as_u64().unwrap() as usize };
+        let case = Case { kind: v["kind"].as_u64().unwrap() as u8, content: unhex(v["content_hex"].as_str().unwrap()), offset: v["offset"].as_u64().unwrap() as usize, addr_rel: v["addr_rel"].as_u64().map(|x| x as usize) };
         return match interpret(&case, None) {
             Ok(()) => {
                 println!("replay: no violation of C05 (read) in {cfg}");
@@ -150,7 +163,7 @@ pub fn main(args: &Args, cfg: &str) -> i32 {
         DriveResult::Fail(case) => {
             let msg = interpret(&case, None).err().unwrap_or_default();
             run.violations = 1;
-            report_violation("C05", &args.replay_dir, &json!({"property": "C05", "tier": "A", "config": cfg, "kind": case.kind, "content_hex": hex(&case.content), "offset": case.offset, "findings": [{"property": "C05", "what": msg}]}));
+            report_violation("C05", &args.replay_dir, &json!({"property": "C05", "tier": "A", "config": cfg, "kind": case.kind, "content_hex": hex(&case.content), "offset": case.offset, "addr_rel": case.addr_rel, "findings": [{"property": "C05", "what": msg}]}));
             1
         }
         DriveResult::Abort(m) => {
